@@ -11,7 +11,11 @@ mod example_list_null;
 pub struct JSONArrayOfNulls;
 impl JSONArrayOfNulls {
     pub fn parse_as_list_null(json : String) -> Result<Vec<Null>, String> {
-        let items = RawUnprocessedJSONArray::split_into_vector_of_strings(json).unwrap();
+        let boxed_items = RawUnprocessedJSONArray::split_into_vector_of_strings(json);
+        if boxed_items.is_err() {
+            return Err(boxed_items.err().unwrap());
+        }
+        let items = boxed_items.unwrap();
         let mut list: Vec<Null> = vec![];
         for item in items {
             let boxed_parse = item.parse::<Null>();
